@@ -1507,7 +1507,8 @@ class Symex:
                     res.append((q2, Val(('contains', olp, kv.term), (0, 1))))
                 continue
             if short in ('size', 'empty'):
-                res.append((q, Val((short, olp), (0, INT_MAX) if short == 'size' else (0, 1))))
+                res.append((q, Val(('asize', olp) if short == 'size' else ('cmp', '==', ('asize', olp), C(0)),
+                                   (0, INT_MAX) if short == 'size' else (0, 1))))
                 continue
             if short in ('operator[]', 'at'):
                 for q2, lp in self.eval_call_lvalue(e, q, ctx):
